@@ -133,6 +133,37 @@ def frames_of_parser(name, body):
     return frames
 
 
+def list_elems_of_writer(name, body, codes):
+    """per struct frame: (field id, element wire type) for every LIST field header that is followed by its
+    `thrift_write_list_begin(enc, ELEM, count)`"""
+    tok = re.compile(r"thrift_write_struct_begin\s*\(|thrift_write_struct_end\s*\(|"
+                     r"thrift_write_field_header\s*\(\s*&?\w+\s*,([^,;]+?(?:\?[^,;]*)?),\s*(-?\d+)\s*\)|"
+                     r"thrift_write_list_begin\s*\(\s*&?\w+\s*,\s*(\w+)\s*,")
+    frames, stack, last, pending = {}, [], {}, None
+    for m in tok.finditer(body):
+        s = m.group(0)
+        if s.startswith("thrift_write_struct_begin"):
+            fname = name if not stack else stack[-1] + "." + str(last.get(stack[-1], "x"))
+            stack.append(fname)
+            frames.setdefault(fname, [])
+        elif s.startswith("thrift_write_struct_end"):
+            stack.pop()
+        elif s.startswith("thrift_write_field_header"):
+            fid = int(m.group(2))
+            last[stack[-1]] = fid
+            pending = (stack[-1], fid) if wire_type(m.group(1), codes) == codes["THRIFT_TYPE_LIST"] else None
+        else:
+            if pending is None:
+                die(f"{name}: thrift_write_list_begin without a LIST field header in front")
+            item = (pending[1], wire_type(m.group(3), codes))
+            if item not in frames[pending[0]]:
+                frames[pending[0]].append(item)
+            pending = None
+    return frames
+
+
+PAGE_INDEX_WRITERS = ["carquet_column_index_serialize", "carquet_offset_index_serialize"]
+
 WRITERS = ["write_statistics", "write_logical_type", "write_schema_element", "write_column_metadata",
            "write_column_chunk", "write_row_group", "parquet_write_file_metadata", "parquet_write_page_header"]
 PARSERS = ["parse_statistics", "parse_logical_type", "parse_schema_element", "parse_column_metadata",
@@ -191,6 +222,24 @@ def main():
     L.append("/-- writer frame -> the parser frame of the same struct (`write` replaced by `parse` in the name) -/")
     L.append("def writerParser : List (String × String) := [" +
              ", ".join('("%s", "%s")' % (k, k.replace("write", "parse")) for k, _ in wf) + "]")
+    # the page-index serialisers (metadata/page_index.c; writers only, carquet has no parser for them)
+    pfns = functions(strip_comments(src("src/metadata/page_index.c")))
+    piw, pil = [], []
+    for fn in PAGE_INDEX_WRITERS:
+        if fn not in pfns:
+            die("page index writer not found: " + fn)
+        for k, v in frames_of_writer(fn, pfns[fn], codes).items():
+            piw.append((k, v))
+        for k, v in list_elems_of_writer(fn, pfns[fn], codes).items():
+            pil.append((k, v))
+    L.append("/-- metadata/page_index.c: per struct frame of the two serialisers, (field id, wire type) in source order -/")
+    L.append("def pageIndexWriters : List (String × List (Int × Nat)) := [")
+    L.append(",\n".join('  ("%s", [%s])' % (k, ", ".join(f"({a}, {b})" for a, b in v)) for k, v in piw))
+    L.append("]")
+    L.append("/-- the same frames: (field id, element wire type) of every list-valued field -/")
+    L.append("def pageIndexListElems : List (String × List (Int × Nat)) := [")
+    L.append(",\n".join('  ("%s", [%s])' % (k, ", ".join(f"({a}, {b})" for a, b in v)) for k, v in pil))
+    L.append("]")
     # does the page-header parser parse statistics (F24 repaired) or skip them?
     ph = fns["parquet_parse_page_header"]
     L.append("/-- `parse_statistics` is called from `parquet_parse_page_header` (F24 repaired) -/")
